@@ -32,13 +32,15 @@ def _judge(p, raised, returned):
     from aiohomekit.exceptions import HomeKitException
 
     det = {k: p[k] for k in ("step", "err", "state", "subset", "errpos", "style")}
+    det["http"] = p.get("http", 200)
     wrong_state = p["state"] not in ("expected", "absent")
     if p["err"] == "absent" and not wrong_state:
         return []
     sa = "state-absent" if p["state"] == "absent" else ("state-wrong" if wrong_state else "state-ok")
     if raised is None:
         which = "error" if p["err"] != "absent" else "wrong-state"
-        return [(f"{p['step']}:{which}-reply-reported-as-done:{sa}", dict(det, returned=repr(returned)))]
+        hx = f":http-{p['http']}" if p.get("http", 200) != 200 else ""
+        return [(f"{p['step']}:{which}-reply-reported-as-done:{sa}{hx}", dict(det, returned=repr(returned)))]
     if not isinstance(raised, HomeKitException):
         return [(f"{p['step']}:fails-with-non-library-error:{type(raised).__name__}", dict(det, err=str(raised)[:160]))]
     return []
@@ -54,11 +56,12 @@ def case_mgmt(p):
         rig = IpRig(seed=p.get("seed", 0))
         cur = {}
         try:
-            rig.acc.handler = std_handler({("POST", "/pairings"): lambda *a: (200, tlv8.encode(cur["items"]), "application/pairing+tlv8")})
+            rig.acc.handler = std_handler({("POST", "/pairings"): lambda *a: (cur.get("http", 200), tlv8.encode(cur["items"]), "application/pairing+tlv8")})
             rig.connect()
             for cell in p["cells"]:
                 cell = dict(cell, step=step)
                 cur["items"] = _reply_items(cell)
+                cur["http"] = cell.get("http", 200)  # accessories commonly send the error TLV inside a 4xx reply (470 with Authentication, 429 with Busy)
                 coro = rig.pairing.add_pairing("new-ctl", "ab" * 32, "User") if step == "ip-add" else rig.pairing.remove_pairing("someone-else")
                 try:
                     ret, exc = rig.run(coro), None
@@ -108,3 +111,6 @@ def cells(tier):
                 for subset in ([], [hap.T_ID]):
                     for errpos in (["last"] if err == "absent" else ["first", "afterstate", "last"]):
                         yield ("mgmt", dict(step=step, err=err, state=state, subset=subset, errpos=errpos, style="ip" if step.startswith("ip") else "ble"))
+                        if step.startswith("ip") and err != "absent" and errpos == "last" and not subset and state in ("expected", "absent"):
+                            for http in (400, 429, 470):
+                                yield ("mgmt", dict(step=step, err=err, state=state, subset=subset, errpos=errpos, style="ip", http=http))
